@@ -80,6 +80,8 @@
 //! pub struct MyError;
 //! ```
 
+#![allow(unexpected_cfgs)]
+
 pub(crate) mod clock;
 mod error;
 mod extension;
@@ -578,5 +580,76 @@ async fn watch_membership_changes(
 
         let _ = membership_changes_tx.send(membership_changes);
         last_network_set = new_network_set;
+    }
+}
+
+#[cfg(datacake_verif)]
+pub mod verif {
+    //! Verification-only seams (compiled only with `--cfg datacake_verif`).
+    use std::borrow::Cow;
+    use std::collections::BTreeMap;
+
+    use tokio::sync::watch;
+    use tokio_stream::wrappers::WatchStream;
+
+    pub use crate::node::NodeMembership;
+    pub use crate::nodes_selector::{start_node_selector, NodeCycler};
+    use crate::{
+        Clock,
+        ClusterMember,
+        ClusterStatistics,
+        DatacakeHandle,
+        MembershipChange,
+        NodeId,
+        NodeSelectorHandle,
+        Nodes,
+        RpcNetwork,
+    };
+
+    /// Builds a [DatacakeHandle] from harness supplied parts (no chitchat).
+    pub fn new_handle(
+        me: ClusterMember,
+        clock: Clock,
+        network: RpcNetwork,
+        selector: NodeSelectorHandle,
+        statistics: ClusterStatistics,
+        membership_changes: watch::Receiver<MembershipChange>,
+    ) -> DatacakeHandle {
+        DatacakeHandle {
+            me: Cow::Owned(me),
+            clock,
+            network,
+            selector,
+            statistics,
+            membership_changes,
+        }
+    }
+
+    /// Runs the real membership watcher over harness supplied snapshots.
+    pub async fn watch_membership_changes(
+        self_node_id: NodeId,
+        network: RpcNetwork,
+        node_selector: NodeSelectorHandle,
+        statistics: ClusterStatistics,
+        changes: WatchStream<NodeMembership>,
+        membership_changes_tx: watch::Sender<MembershipChange>,
+    ) {
+        crate::watch_membership_changes(
+            self_node_id,
+            network,
+            node_selector,
+            statistics,
+            changes,
+            membership_changes_tx,
+        )
+        .await
+    }
+
+    /// Public wrapper for [NodeSelectorHandle::set_nodes].
+    pub async fn set_nodes(
+        handle: &NodeSelectorHandle,
+        data_centers: BTreeMap<Cow<'static, str>, Nodes>,
+    ) {
+        handle.set_nodes(data_centers).await
     }
 }
